@@ -1411,6 +1411,20 @@ func (res *ConcResult) checkSweepComplete(w *World) {
 	}
 	stored := map[int64]st{}
 	dup := map[int64]bool{}
+	seen := map[int64]int{}
+	for _, r := range w.recs {
+		// value ids derived inside callbacks and visitors can repeat: an id that
+		// any two storing calls carry is ambiguous
+		switch r.Op.K {
+		case CSet, CSetDefault, CSetForever, CGetOrSet, CGetAndSet, CGetOrCompute, CCompute:
+			if r.Op.Val != 0 {
+				seen[r.Op.Val]++
+				if seen[r.Op.Val] > 1 {
+					dup[r.Op.Val] = true
+				}
+			}
+		}
+	}
 	for _, r := range w.recs {
 		if r.Pending {
 			continue
@@ -1427,11 +1441,8 @@ func (res *ConcResult) checkSweepComplete(w *World) {
 		default:
 			continue
 		}
-		if d <= 0 || v == 0 {
-			continue // sentinels / never expiring
-		}
-		if _, ok := stored[v]; ok {
-			dup[v] = true
+		if v == 0 || d <= 0 || dup[v] {
+			continue // the zero value, sentinels / never expiring, ambiguous ids
 		}
 		hi := r.NowRet
 		if hi < r.Now {
@@ -1460,7 +1471,7 @@ func (res *ConcResult) checkSweepComplete(w *World) {
 				continue
 			}
 			s, ok := stored[rp.V]
-			if !ok || dup[rp.V] {
+			if !ok || dup[rp.V] || s.rec.Op.Key != rp.K {
 				continue
 			}
 			// the removal happened inside the reporting call, somewhere before
